@@ -364,6 +364,10 @@ func (o *Obligation) SetParts(parts []Term) {
 		for _, p := range parts {
 			o.Parts = append(o.Parts, Implies(o.pc, p))
 		}
+		// evaluating the parts may have introduced named constants with their defining equations: they belong to
+		// this obligation's context as well (facts are never goal-dependent)
+		c := o.ctx
+		o.nSorts, o.nDecls, o.nAxioms, o.nFacts = len(c.sortDecls), len(c.decls), len(c.axioms), len(c.facts)
 	}
 }
 
